@@ -1,7 +1,8 @@
 (** Property monitors evaluated on one observed ObjectSet controller pass (harness mode "objectset"). *)
 From Coq Require Import List NArith ZArith Bool.
 From PKO Require Import Util Base Owner Api Phase ObjectSet.
-From PKOCorr Require Import PhaseCorr SetCorr.
+From PKO Require Import AdoptionProofs.
+From PKOCorr Require Import PhaseCorr SetCorr C01Corr C02Corr.
 From PKOCorr Require C15Corr.
 Import ListNotations.
 Local Open Scope N_scope.
@@ -190,6 +191,22 @@ Section Mon.
            end) members)
     end.
 
+  (** C11: "violations ... are retried": an active pass of an ObjectSet that lists an object twice, or whose first
+      (in-process) phase contains an object violating preflight, ends with a requeue (or an error, which the
+      workqueue retries with backoff). *)
+  Definition m11r : bool :=
+    match target with
+    | None => true
+    | Some m =>
+        negb (is_activeb m) || Z.eqb (os_revision m) 0 ||
+        negb (Nat.ltb 0 (dup_count [] (map (spec_key m) (all_objects m))) ||
+              match os_phases m with
+              | ph :: _ => negb (ph_class ph) &&
+                           existsb (fun p => negb (is_nil (preflight_obj FObjectSet (as_owner m) false p))) (ph_objects ph)
+              | [] => false end) ||
+        match sc_res c with SDone true | SError => true | _ => false end
+    end.
+
   (** C01 at the controller level: a collision error is reported as Available=False/CollisionDetected for
       the current generation, with a requeue. *)
   Definition m01 : bool :=
@@ -221,6 +238,53 @@ Definition m04d (c : scase) : bool := C15Corr.m_teardown (as_dobs c).
     ObjectSet, Available for their own generation. *)
 Definition m06d (c : scase) : bool := C15Corr.m_relay (as_dobs c) && C15Corr.m_own (as_dobs c).
 
+(** C01 / C02 at the controller level: the member requests of an active pass of an ObjectSet with a revision are
+    judged by the phase-level monitors (C01Corr m1: every write justified by the version read; m2: objects that may
+    not be adopted are untouched; C02Corr: handover only forward, one controller, owner's revision recorded) on the
+    phase case synthesised from the controller's own inputs: the previous revisions are those the stored ObjectSets
+    give for spec.previous (so the real PreviousRevisionLookup and the wiring of the controller are inside the run). *)
+Definition as_pcase (c : scase) (m : oset) : pcase :=
+  {| pc_flavor := FObjectSet; pc_force := sc_force c; pc_owner := as_owner m; pc_prev := lookup_prev (sc_sets c) m;
+     pc_store := sc_store c; pc_rv := sc_rv c; pc_uid := sc_uid c; pc_teardown := false;
+     pc_objects := flat_map ph_objects (locals m); pc_between := [];
+     pc_res := OErr None; pc_events := members c; pc_post := sc_post c; pc_rv' := sc_rv' c; pc_uid' := sc_uid' c |}.
+
+Definition judged_active (c : scase) (m : oset) : bool :=
+  is_activeb m && keys_nodup m && negb (Z.eqb (os_revision m) 0).
+
+Definition must_refuse_s (c : scase) (m : oset) (p : pobj) (o : obj) : bool :=
+  negb (is_controller Native (os_id m) o) &&
+  negb (AdoptionProofs.permitted Native (sc_force c) (as_owner m) o (lookup_prev (sc_sets c) m) (po_cp p)) &&
+  negb (AdoptionProofs.newer (as_owner m) o) && negb (AdoptionProofs.rev_unparsable o).
+
+(** a collision is reported only for a refusal: some listed object exists, is not controlled and may not be adopted *)
+Definition m01c (c : scase) : bool :=
+  match target c with
+  | None => true
+  | Some m =>
+      negb (judged_active c m) || lifecycle_eqb (os_life m) LPaused ||
+      forallb (fun s => let '(cs, _, _, _) := s in
+        match find_cond cs CAvailable with
+        | Some cd => negb (creason_eqb (cd_reason cd) RCollisionDetected) ||
+                     option_eqb cond_eqb (find_cond (os_conds m) CAvailable) (Some cd) ||
+                     existsb (fun p => match lookup (spec_key m p) (sc_store c) with
+                                       | Some o => must_refuse_s c m p o | None => false end)
+                             (flat_map ph_objects (locals m))
+        | None => true end) (statuses c)
+  end.
+
+Definition m01s (c : scase) : bool :=
+  m01 c && m01c c &&
+  match target c with
+  | Some m => negb (judged_active c m) || (C01Corr.m1 (as_pcase c m) && C01Corr.m2 (as_pcase c m))
+  | None => true end.
+Definition m02s (c : scase) : bool :=
+  match target c with
+  | Some m => negb (judged_active c m) || C02Corr.monitor (as_pcase c m)
+  | None => true end.
+Definition judge01s (c : scase) : bool * bool := (agree c, m01s c).
+Definition judge02s (c : scase) : bool * bool := (agree c, m02s c).
+
 Definition judge03 (c : scase) : bool * bool := (agree c, m03 c && m03d c).
 Definition judge04 (c : scase) : bool * bool := (agree c, m04 c && m04d c).
 Definition judge05s (c : scase) : bool * bool := (agree c, m04d c && match target c with Some m => negb (is_goingb m) || negb (os_orphan m) || is_nil (members c) | None => true end).
@@ -230,5 +294,5 @@ Definition judge06 (c : scase) : bool * bool := (agree c, m06 c && m06d c).
 Definition m09d (c : scase) : bool := C15Corr.m_pause (as_dobs c).
 Definition m09d_all (c : scase) : bool := C15Corr.m_pause_all (as_dobs c).
 Definition judge09 (c : scase) : bool * bool * bool := (agree c, m09 c && m09d c, m09d_all c).
-Definition judge11 (c : scase) : bool * bool := (agree c, m11 c).
+Definition judge11 (c : scase) : bool * bool := (agree c, m11 c && m11r c).
 Definition judge_all (c : scase) : list bool := [agree c; m01 c; m03 c && m03d c; m04 c && m04d c; m06 c && m06d c; m09 c; m11 c].
